@@ -33,23 +33,23 @@ Inductive cop :=
 Inductive case := Case (pk wal : bool) (w : Z) (ops : list cop) | Weird.
 
 Definition pext (o : pout) : option nat := match o with POk _ => None | PErr => Some O end.
-Fixpoint prep_rest (rows : list row) (outs : list pout) : list op :=
+Fixpoint prep_ops (rows : list row) (outs : list pout) : list op :=
   match rows, outs with
-  | r :: rt, o :: ot => Bulk [r] (pext o) :: prep_rest rt ot
+  | r :: rt, o :: ot => Insert [r] (pext o) :: prep_ops rt ot
   | _, _ => []
   end.
 
 (* the model's view of an operation: for a failed statement the only thing taken from the
-   observation is the number of rows it had written when it stopped.  A prepared statement runs
-   execute_insert_internal the first time and insert_cached from then on. *)
+   observation is the number of rows it had written when it stopped.  Every execution of a
+   prepared INSERT into an AUTO_INCREMENT table is an ordinary single-row INSERT (no cached plan).
+   A failing insert_batch call is outside the model. *)
 Definition to_ops (c : cop) : list op :=
   match c with
   | CIns rows (IOk _) | CIns rows (IOkS _ _) => [Insert rows None]
   | CIns rows (IErr lft) => [Insert rows (Some (length lft))]
-  | CBatch rows (BOk _) => [Bulk rows None]
-  | CBatch rows (BErr lft) => [Bulk rows (Some (length lft))]
-  | CPrep (r :: rt) (o :: ot) => Insert [r] (pext o) :: prep_rest rt ot
-  | CPrep _ _ => []
+  | CBatch rows (BOk _) => [Bulk rows]
+  | CBatch rows (BErr _) => []
+  | CPrep rows outs => prep_ops rows outs
   | CDel => [Delete] | CBegin => [TxBegin] | CCommit => [TxCommit] | CRollback => [TxRollback]
   | CReopen => [Reopen]
   end.
@@ -63,16 +63,23 @@ Fixpoint ozlist_eqb (a b : list (option Z)) : bool :=
   | x :: a', y :: b' => oz_eqb x y && ozlist_eqb a' b'
   | _, _ => false
   end.
-(* executions 2.. of a prepared statement: the id is stored as given *)
-Fixpoint cached_agree (w : Z) (rows : list row) (outs : list pout) : bool :=
+(* the executions of a prepared INSERT, one single-row statement each; the id read back from
+   the table is the stored value; returns the counter afterwards *)
+Fixpoint prep_agree (w ai : Z) (rows : list row) (outs : list pout) : bool * Z :=
   match rows, outs with
-  | [], [] => true
-  | r :: rt, POk id :: ot => oz_eqb (given w r) id && cached_agree w rt ot
-  | _ :: rt, PErr :: ot => cached_agree w rt ot
-  | _, _ => false
+  | [], [] => (true, ai)
+  | r :: rt, o :: ot =>
+      let '(ai', wr, ok) := insert_stmt w ai [r] (pext o) in
+      let here := match o with
+                  | POk (Some id) => ok && zlist_eqb (map (stored w) (map fst wr)) [id]
+                  | POk None => false
+                  | PErr => negb ok
+                  end in
+      let '(rest, aif) := prep_agree w ai' rt ot in (here && rest, aif)
+  | _, _ => (false, ai)
   end.
 
-(* ids read back from the table are the stored (possibly wrapped) values, RETURNING ids are not *)
+(* ids read back from the table are the stored values, RETURNING ids are the ids themselves *)
 Fixpoint agrees_from (w ai : Z) (ops : list cop) : bool :=
   match ops with
   | [] => true
@@ -80,7 +87,7 @@ Fixpoint agrees_from (w ai : Z) (ops : list cop) : bool :=
       match c with
       | CIns rows o =>
           let ext := match o with IErr lft => Some (length lft) | _ => None end in
-          let '(ai', wr, ok) := insert_stmt ai rows ext in
+          let '(ai', wr, ok) := insert_stmt w ai rows ext in
           let ids := map fst wr in
           match o with
           | IOk l => ok && zlist_eqb ids l && zlist_eqb (map (stored w) ids) l
@@ -89,18 +96,11 @@ Fixpoint agrees_from (w ai : Z) (ops : list cop) : bool :=
           end && agrees_from w ai' t
       | CBatch rows o =>
           match o with
-          | BOk ids => ozlist_eqb (map (given w) rows) ids
-          | BErr lft => (length lft <? length rows)%nat && ozlist_eqb (firstn (length lft) (map (given w) rows)) lft
-          end && agrees_from w ai t
-      | CPrep [] [] => agrees_from w ai t
-      | CPrep (r :: rt) (o :: ot) =>
-          let '(ai', wr, ok) := insert_stmt ai [r] (pext o) in
-          match o with
-          | POk (Some id) => ok && zlist_eqb (map (stored w) (map fst wr)) [id]
-          | POk None => false
-          | PErr => negb ok
-          end && cached_agree w rt ot && agrees_from w ai' t
-      | CPrep _ _ => false
+          | BOk ids => ozlist_eqb (map (given w) rows) ids && agrees_from w (fst (step w ai (Bulk rows))) t
+          | BErr _ => false
+          end
+      | CPrep rows outs =>
+          let '(ok, ai') := prep_agree w ai rows outs in ok && agrees_from w ai' t
       | _ => agrees_from w ai t
       end
   end.
@@ -158,9 +158,10 @@ Definition spec_ok (c : case) : bool :=
   | Weird => true
   end.
 
+(* no recorded finding is open any more (F-C12-1..5 fixed by /repo a94d684, 66de927, 6d846b9, 94b952d) *)
 Definition known_class (c : case) : Z :=
   match c with
-  | Case _ _ w ops => AutoInc.known_class_w w (flat_map to_ops ops)
+  | Case _ _ _ _ => 0
   | Weird => 0
   end.
 
